@@ -600,6 +600,9 @@ struct Allow {
     hlg_black: bool,
     pow_underflow: bool,
     pq_dark: bool,
+    /// report matches of the classes below as violations with signature `dev:<class>` (handled
+    /// by the runner's known-findings list) instead of skipping them as inconclusive
+    report: bool,
 }
 impl Allow {
     fn parse(args: &Args) -> Allow {
@@ -616,13 +619,25 @@ impl Allow {
                     "pow-underflow" => a.pow_underflow = true,
                     "pq-dark" => a.pq_dark = true,
                     "all" => {
-                        a = Allow { hdr_icc: true, gamma_sub1: true, gamma_huge: true, gamma_zero: true, grey_hlg: true, hlg_black: true, pow_underflow: true, pq_dark: true }
+                        a = Allow { hdr_icc: true, gamma_sub1: true, gamma_huge: true, gamma_zero: true, grey_hlg: true, hlg_black: true, pow_underflow: true, pq_dark: true, report: false }
                     }
                     _ => {}
                 }
             }
         }
+        a.report = args.extra.get("report-known").map_or(false, |v| v == "1");
         a
+    }
+}
+
+/// A known deviation class was hit: domain exclusions stay inconclusive, defects are reported.
+fn known_dev(case: &mut Case, allow: &Allow, class: &str, detail: String) {
+    // gamma-sub1 / gamma-zero are outside the set of valid encodings (the reference decoder
+    // rejects such headers), so they are never reported
+    if allow.report && class != "gamma-sub1" && class != "gamma-zero" {
+        case.violation(format!("dev:{class}"), detail);
+    } else {
+        case.inconclusive(&format!("known deviation {class}"));
     }
 }
 
@@ -839,7 +854,7 @@ fn sub_a(case: &mut Case, cx: &Ctx) {
                 eprintln!("EXPA icconly {cs} {wpk} {prk} {tfk}");
             }
             if let Some(k) = known_tf {
-                case.inconclusive(&format!("a: known deviation {k} (ICC-only result)"));
+                known_dev(case, &cx.allow, k, format!("synthesised profile falls back to ICC-only: {desc}"));
             } else {
                 case.violation(
                     format!("a/{cs}/{tfk}:icc-only"),
@@ -977,7 +992,7 @@ fn sub_a(case: &mut Case, cx: &Ctx) {
         case.obs("a_xy_strict_1e-4", 1);
     }
     if tf_known {
-        case.inconclusive(&format!("a: known deviation {} (tf mismatch)", known_tf.unwrap()));
+        known_dev(case, &cx.allow, known_tf.unwrap(), format!("transfer function does not round-trip: {desc}"));
     }
     if !bad.is_empty() {
         let what = bad.iter().map(|b| b.split('(').next().unwrap().split('[').next().unwrap().to_string()).collect::<std::collections::BTreeSet<_>>().into_iter().collect::<Vec<_>>().join("+");
@@ -1255,6 +1270,17 @@ fn dist_to(iv: (f64, f64), v: f64) -> f64 {
     }
 }
 
+thread_local! {
+    static KNOWN_FAIL: std::cell::RefCell<Option<(String, String)>> = const { std::cell::RefCell::new(None) };
+    static REPORT_KNOWN: std::cell::Cell<bool> = const { std::cell::Cell::new(false) };
+}
+
+fn note_known_fail(class: &str, msg: String) {
+    KNOWN_FAIL.with(|k| {
+        k.borrow_mut().get_or_insert((format!("dev:{class}"), msg));
+    });
+}
+
 struct StepEval<'a> {
     tf: TransferFunction,
     it: f64,
@@ -1290,13 +1316,35 @@ impl<'a> StepEval<'a> {
             // exponent underflow of the power evaluation (2^-126) - known deviation "pow-underflow"
             let expo = if encode { 1.0 / e_dec } else { e_dec };
             let underflow = power_law && x > 0.0 && x.log2() * expo < -125.0;
+            let report = REPORT_KNOWN.with(|r| r.get());
+            // samples in a known-deviation class: skipped, or (report mode) evaluated with
+            // failures routed to the `dev:<class>` signature
+            let mut cls: Option<&'static str> = None;
             if underflow && self.allow_underflow {
-                *known += 1;
-                prev = None;
-                continue;
+                cls = Some("pow-underflow");
             }
             if tf == TransferFunction::Hlg && x.abs() < 1e-22 && self.allow_hlg_black {
+                cls = Some("hlg-black");
+            }
+            if in_range && encode && tf == TransferFunction::Pq && self.allow_pq_dark && x >= 0.99e-4 && x * it / 10000.0 <= 1.01e-4 {
+                cls = Some("pq-dark");
+            }
+            if let Some(c) = cls {
                 *known += 1;
+                if report {
+                    if !y.is_finite() {
+                        if in_range {
+                            note_known_fail(c, format!("{name}({x:e}) = {y:e} (tf {tf:?}, intensity target {it})"));
+                        }
+                    } else if in_range {
+                        let iv = ref_interval(&f, x);
+                        let d = dist_to(iv, y);
+                        let (abs, rel) = if encode { (self.tol.enc_abs, self.tol.enc_rel) } else { (self.tol.dec_abs * self.lin_scale, self.tol.dec_rel) };
+                        if d > abs + rel * iv.1.abs() {
+                            note_known_fail(c, format!("{name}({x:e}) = {y:e}, definition gives [{:e}, {:e}] (tf {tf:?}, intensity target {it})", iv.0, iv.1));
+                        }
+                    }
+                }
                 prev = None;
                 continue;
             }
@@ -1321,11 +1369,6 @@ impl<'a> StepEval<'a> {
                 // known deviation "pq-dark": the small-value polynomial of the PQ encoder is selected
                 // by comparing the *unscaled* sample with 1e-4, so for intensity targets below
                 // 10000 the large-value polynomial is used outside its fitted range
-                if encode && tf == TransferFunction::Pq && self.allow_pq_dark && x >= 0.99e-4 && x * it / 10000.0 <= 1.01e-4 {
-                    *known += 1;
-                    prev = None;
-                    continue;
-                }
                 if encode {
                     st.enc = st.enc.max(norm);
                 } else {
@@ -1431,7 +1474,7 @@ fn sub_b(case: &mut Case, cx: &Ctx) {
         }
     };
     if grey && tf == TransferFunction::Hlg && cx.allow.grey_hlg {
-        case.inconclusive("b: known deviation grey-hlg");
+        known_dev(case, &cx.allow, "grey-hlg", format!("ColorTransform for a Grey HLG encoding panics at convert.rs (HLG arm needs 3 planes): {desc}"));
         return;
     }
     let first = if mode == 1 { &t_dec } else { &t_enc };
@@ -1483,6 +1526,8 @@ fn sub_b(case: &mut Case, cx: &Ctx) {
     let tol = b_tolerances(tf, e_dec);
     let itf = it as f64;
     let lin_scale = if tf == TransferFunction::Pq { 10000.0 / itf } else { 1.0 };
+    REPORT_KNOWN.with(|r| r.set(cx.allow.report));
+    KNOWN_FAIL.with(|k| k.borrow_mut().take());
     let ev = StepEval { tf, it: itf, tol: &tol, lin_scale, allow_underflow: cx.allow.pow_underflow, allow_hlg_black: cx.allow.hlg_black, allow_pq_dark: cx.allow.pq_dark };
     let mut st = BStats::default();
     let mut known = 0u64;
@@ -1539,6 +1584,9 @@ fn sub_b(case: &mut Case, cx: &Ctx) {
     }
     if known > 0 {
         case.obs("b_samples_skipped_known_deviation", known);
+    }
+    if let Some((sig, msg)) = KNOWN_FAIL.with(|k| k.borrow_mut().take()) {
+        case.violation(sig, msg);
     }
     if cx.explore {
         eprintln!(
